@@ -3,11 +3,15 @@ from __future__ import annotations
 
 from sqlglot import tokens
 from sqlglot.dialects.dialect import Dialect, DialectType
+
+# The Trino and Hive dialects are imported before Athena's generators on purpose: creating a
+# dialect class finalizes its generator's TRANSFORMS (unsupported JSON path parts are removed),
+# and the Athena generators copy those tables when their own classes are created
+from sqlglot.dialects.trino import Trino
+from sqlglot.dialects.hive import Hive
 from sqlglot.generators.athena import AthenaGenerator
 from sqlglot.parsers.athena import AthenaParser
 from sqlglot.tokens import TokenType, Token
-from sqlglot.dialects.trino import Trino
-from sqlglot.dialects.hive import Hive
 
 
 def _tokenize_as_hive(tokens: list[Token]) -> bool:
